@@ -541,6 +541,11 @@ def reader_oracle(case, stats=None):
 
 
 def search(ctx, stats):
+    if ctx.part == "fuzz":
+        # the generated MPS files of the reader part, driven by libFuzzer (atheris) on the branch coverage of modeling.py
+        from vlib.harness import run_fuzz
+        v = run_fuzz(mps_case(), lambda c: reader_oracle(c, stats), ctx.seed, ctx.n(3000, 150000), stats, journal=ctx.journal)
+        return [v] if v else []
     if ctx.part == "reader":
         v = run_given(mps_case(), lambda c: reader_oracle(c, stats), ctx.seed, ctx.n(12000, 300000), stats)
     else:
@@ -553,7 +558,7 @@ def search(ctx, stats):
 
 def replay(case, part):
     try:
-        if part == "reader":
+        if part in ("reader", "fuzz"):
             reader_oracle(case)
         elif "k" in case and len(case) == 1:
             nonlp_oracle(case)
